@@ -335,7 +335,7 @@ theorem lookupPos_fst_none {mk : π} {f : Fib Int π} {c : Int} (h : (lookupPos 
 
 theorem lookup_posrefF (mk : π) {f : Fib Int π} (hs : Sorted f) (c c' : Int) :
     lookup (posrefF mk f c) c' = if c' = c then some ((lookup f c).getD mk) else lookup f c' := by
-  unfold posrefF
+  unfold posrefF insertIfMissing
   rw [posLookup_eq_lookup hs]
   cases hl : lookup f c with
   | some p =>
@@ -412,7 +412,7 @@ theorem shapeRefLoop_present (mk : π) : ∀ (cs : List Int) (g : Fib Int π), S
   | [], g, _, _ => rfl
   | c :: cs, g, hs, hall => by
     have hc : posrefF mk g c = g := by
-      unfold posrefF
+      unfold posrefF insertIfMissing
       rw [posLookup_eq_lookup hs]
       cases hl : lookup g c with
       | some _ => rfl
